@@ -358,8 +358,32 @@ def run_comp(case):
                 w = ev.split(" ")
                 if "unknown-phase" in w:
                     tags.add("comp:unknown-phase")
-        # oracle on the component run: numbering of what was submitted, order of what was delivered
-        b = comp.b
+        # oracle on the component run: the i-th plaintext handed to W.received must be one that was supplied
+        # for phase i (by `rx i`, `got_message "i"` or an intact peer message labelled i) - whatever else
+        # happens (close, error, scared, reconnects) nothing may be delivered across a gap or twice
+        supplied = {}
+        for op in case["ops"]:
+            if op[0] == "rx":
+                supplied.setdefault(op[1], set()).add(op[2])
+            elif op[0] == "got_message" and op[1].strip("\n").isdigit() and op[1].isascii():
+                try:
+                    supplied.setdefault(int(op[1]), set()).add(op[2])
+                except ValueError:
+                    pass
+            elif op[0] == "mailbox_rx" and op[3][0] == "seal" and op[2].isdigit() and op[2].isascii():
+                supplied.setdefault(int(op[2]), set()).add(op[3][3])
+        got = []
+        for e in exp:
+            for ev in e.split(" | ")[0].split("; "):
+                w = ev.split(" ")
+                if "received" in w:
+                    got.append(w[w.index("received") + 1])
+        for i, g in enumerate(got):
+            if g not in supplied.get(i, ()):
+                viol.append(("comp-delivery-out-of-sequence",
+                             f"the {i}-th plaintext handed to the application is {g[:16]}, which was never supplied "
+                             f"for phase {i} (delivered so far: {[x[:8] for x in got[:i + 1]]})"))
+                break
         nontrivial = any(" received " in e or not e.startswith("ok") for e in exp)
         return Result(lines, exp, viol, sorted(tags), nontrivial)
     finally:
@@ -467,10 +491,30 @@ def gen_comp(rng, adversarial):
                                    ["mbox", "rx_closed"], ["mbox", "got_mailbox"], ["key"], ["boss", "got_code"]]))
         else:
             ops.append(["boss", "got_key"])
+    if rng.random() < 0.35:
+        # finish with a close / self-close while phases are parked, then the Terminator's `closed`
+        gap = peer_next + 1
+        tail = [peer_rx(str(gap), rng.choice(pts)), peer_rx(str(gap + 1), rng.choice(pts)),
+                ["rx", gap + 3, rng.choice(pts)],
+                ["boss", rng.choice(["close", "scared", "rx_error", "rx_unwelcome", "close", "error"])],
+                ["boss", "closed"], ["turn"], peer_rx(str(peer_next), rng.choice(pts)), ["get_message"], ["turn"]]
+        for t in tail:
+            if t[0] == "mailbox_rx" and any(x[0] == "mailbox_rx" and x[2] == t[2] for x in ops):
+                continue
+            ops.append(t)
     return ops
 
 
 COMP_CORPUS = [
+    # close()/closed, error, scared with messages parked in the reorder buffer: nothing may be flushed
+    [["boss", "got_code"], ["boss", "happy"], ["rx", 0, "a0"], ["rx", 2, "a2"], ["rx", 3, "a3"], ["get_message"],
+     ["get_message"], ["get_message"], ["boss", "close"], ["rx", 5, "a5"], ["boss", "closed"], ["turn"], ["rx", 1, "a1"],
+     ["get_message"], ["turn"]],
+    [["boss", "got_code"], ["boss", "happy"], ["rx", 1, "b1"], ["boss", "scared"], ["boss", "closed"], ["rx", 0, "b0"]],
+    [["boss", "got_code"], ["boss", "happy"], ["rx", 2, "c2"], ["rx", 1, "c1"], ["boss", "rx_error"], ["boss", "closed"]],
+    [["boss", "got_code"], ["boss", "happy"], ["rx", 1, "d1"], ["get_message"], ["boss", "error"], ["turn"], ["rx", 0, "d0"]],
+    [["boss", "got_code"], ["boss", "happy"], ["drx", 1, "e1"], ["rx", 1, "e9"], ["boss", "rx_unwelcome"],
+     ["boss", "closed"], ["drx", 0, "e0"], ["rx", 0, "e8"]],
     # reorder buffer: gaps, duplicates, stale phases
     [["boss", "got_code"], ["boss", "happy"], ["rx", 2, "02"], ["rx", 0, "00"], ["rx", 0, "00"], ["rx", 3, "03"],
      ["rx", 1, "01"], ["rx", 1, "01"], ["rx", 5, "05"], ["get_message"], ["turn"], ["get_message"], ["get_message"],
@@ -538,6 +582,7 @@ def gen_e2e(rng, tier):
     deleg = [rng.random() < 0.5, rng.random() < 0.5]
     code_mode = rng.choice(["set", "set", "set", "alloc"])
     with_dilate = rng.random() < 0.5
+    with_close = rng.random() < 0.35
     todo = {}
     for who in (0, 1):
         seq = [["api", who, "send", hx(payload(rng, i, who))] for i in range(nmsg[who])]
@@ -584,6 +629,13 @@ def gen_e2e(rng, tier):
                     cand.append((1.0, ["turn", who]))
                 if not c.delegated:
                     cand.append((0.3, ["api", who, "get_message"]))
+                if with_close and not run.any_close:
+                    parked = bool(_keys(getattr(c.boss, "_rx_phases", None)))
+                    cand.append((0.6 if parked else 0.03, ["api", who, "close"]))
+                    if c.conn is not None:
+                        cand.append((0.3 if parked else 0.01, ["srverr", who]))
+                        if run.W.msg_frames(who):
+                            cand.append((0.2 if parked else 0.01, ["scare", who, 0]))
             cand.append((0.05, ["settle"]))
             tot = sum(w for w, _ in cand)
             x = rng.random() * tot
@@ -684,6 +736,26 @@ def dil_case(perm, deleg, ndil=2, nmsg=3):
     return dict(kind="e2e", seed=11, deleg=deleg, ops=ops, dil=True)
 
 
+def close_case(perm, k, how, deleg):
+    """3 messages A->B delivered in order `perm`; after k of them B's wormhole closes (`how`: the application
+    calls close(), the server sends an error, or the next message is corrupted), everything else still arrives"""
+    ops = [["open", 0], ["open", 1], ["api", 0, "set_code", CODE], ["api", 1, "set_code", CODE], ["settle"]]
+    ops += [["api", 1, "get_message"]] * 3
+    for i in range(3):
+        ops.append(["api", 0, "send", "%02x%02x" % (0xc0 + i, i)])
+    ops += [["c2s", 0]] * 3
+    ops += [["swapmsg", 1, i, j] for i, j in perm_swaps(perm)]
+    ops += [["s2c", 1]] * k
+    if how == "close":
+        ops.append(["api", 1, "close"])
+    elif how == "srverr":
+        ops += [["srverr", 1], ["s2c", 1]]
+    else:
+        ops += [["scare", 1, 0], ["s2c", 1]]
+    ops.append(["settle"])
+    return dict(kind="e2e", seed=13, deleg=deleg, ops=ops, closing=True)
+
+
 class Tap:
     """observation points on one real client (instance attributes only; nothing in /repo changes)"""
 
@@ -761,6 +833,7 @@ class E2ERun:
         self.events = []
         self.taps = [Tap(self.events, self.cl[0], 0), Tap(self.events, self.cl[1], 1)]
         self.sent = {0: [], 1: []}
+        self.any_close = False           # some wormhole was told to close or closed itself: no completeness claim
         self.dsent = {0: [], 1: []}      # bodies submitted as dilate-0, dilate-1, … (what Manager.send_dilation_phase does)
         self.ngets = {0: 0, 1: 0}
         self.viol = []
@@ -824,6 +897,26 @@ class E2ERun:
             if cl[op[1]].delegated:
                 return True
             self.ngets[op[1]] += 1
+        if k == "api" and op[2] == "close":
+            self.any_close = True
+            self.tags.add("e2e:close" + (":parked" if _keys(getattr(cl[op[1]].boss, "_rx_phases", None)) else ""))
+        if k == "srverr":
+            # the server sends an `error` frame (e.g. crowded) ahead of whatever is queued: the wormhole closes itself
+            c = cl[op[1]]
+            if c.conn is None:
+                return True
+            from wormhole.util import dict_to_bytes
+            c.conn.s2c.appendleft(dict_to_bytes({"type": "error", "error": "crowded", "orig": {"type": "open"}}))
+            self.any_close = True
+            self.tags.add("e2e:srverr" + (":parked" if _keys(getattr(c.boss, "_rx_phases", None)) else ""))
+            return True
+        if k == "scare":
+            # the next queued peer message is corrupted: Receive is scared, the wormhole closes itself
+            r = W.do(["tamper", op[1], op[2], "flip", 5])
+            if r == "ok":
+                self.any_close = True
+                self.tags.add("e2e:scare")
+            return True
         if k == "dsend":
             # exactly what _dilation.manager.Manager.send_dilation_phase does: S.send("dilate-%d" % n, body);
             # the real Send seals it with the real key (or queues it until the key is verified)
@@ -869,6 +962,9 @@ def run_e2e(case):
             W.do(["settle"])
             codes = [[v for (n, v) in c.events if n == "code"] for c in cl]
             shared = bool(codes[0]) and codes[0] == codes[1]      # "two wormholes that share a code"
+            if run.any_close:
+                shared = False      # after a close only the prefix property is claimed, not completeness
+                tags.add("e2e:closed-run")
             if not shared:
                 tags.add("e2e:no-shared-code")
             if check("after the final settle") and shared:
@@ -895,6 +991,11 @@ def run_e2e(case):
                     acts.append("s" + hx(sent[y][ev[2]]))
                 elif ev[0] == "rx" and ev[1] == x and ev[2] == cl[y].side and ev[3].isdigit() and ev[3].isascii():
                     acts.append("d" + str(int(ev[3])))
+            if run.any_close:
+                # a closing Boss ignores what still arrives: replay only what it took while S2_happy
+                acts = ["s" + hx(m) for m in sent[y]]
+                acts += ["d" + str(g[1]) for g in taps[x].got_phase
+                         if g[0] == "rx" and g[3] == "S2_happy" and g[1] < len(sent[y])]
             b = cl[x].boss
             lines.append("pipe " + " ".join(acts) if acts else "pipe")
             exp.append(f"received=[{','.join(hx(m) for m in taps[x].delivered)}] next={b._next_rx_phase} "
@@ -949,6 +1050,11 @@ def run_e2e(case):
 # --------------------------------------------------------------------------- entry points
 
 E2E_CORPUS = [
+    # phase 1 parked in B's reorder buffer, then B closes (three ways): B's application must not see it
+    close_case([1, 0, 2], 1, "close", [False, False]),
+    close_case([1, 2, 0], 2, "close", [False, True]),
+    close_case([2, 0, 1], 1, "srverr", [False, True]),
+    close_case([1, 0, 2], 1, "scare", [False, False]),
     # dilate-N phases share the mailbox with numbered phases: order to B = dilate-1, 0, 1, 2, dilate-0
     dil_case([1, 2, 3, 4, 0], [False, False]),
     dil_case([1, 0, 3, 2, 4], [True, False]),
@@ -976,14 +1082,25 @@ E2E_CORPUS = [
 
 def cases(rng, tier):
     out = []
+    out.extend(E2E_CORPUS)        # whole-client witnesses first: a violation is reported with a two-client replay
     for i, ops in enumerate(COMP_CORPUS):
         out.append(dict(kind="comp", seed=i, ops=ops))
-    out.extend(E2E_CORPUS)
     m = 1 if tier == "quick" else 12
     for i in range(140 * m):
         out.append(dict(kind="comp", seed=rng.randrange(10**6), ops=gen_comp(rng, adversarial=(i % 3 == 2))))
     for i in range(150 * m):
         out.append(gen_e2e(rng, tier))
+    perms3 = list(itertools.permutations(range(3)))
+    if tier == "thorough":
+        for pm in perms3:
+            for k in range(4):
+                for how in ("close", "srverr", "scare"):
+                    for dl in (False, True):
+                        out.append(close_case(list(pm), k, how, [False, dl]))
+    else:
+        for _ in range(8):
+            out.append(close_case(list(rng.choice(perms3)), rng.randrange(4), rng.choice(["close", "srverr", "scare"]),
+                                  [rng.random() < 0.5, rng.random() < 0.5]))
     perms5 = list(itertools.permutations(range(5)))
     if tier == "thorough":
         for pm in perms5:
@@ -1020,6 +1137,11 @@ def search(rng, seconds, seeds):
             yield c, run_case(c)
     for c in E2E_CORPUS:
         yield c, run_case(c)
+    for pm in itertools.permutations(range(3)):
+        for k in range(4):
+            for how in ("close", "srverr", "scare"):
+                c = close_case(list(pm), k, how, [False, True])
+                yield c, run_case(c)
     for pm in itertools.permutations(range(5)):
         if time.time() - t0 > seconds:
             return
